@@ -84,6 +84,22 @@ def check(spec):
             ann2 = [e for k, e in main.log[mark:] if k == "set_epoch"]
             if ann2 != ref["set_epochs"]:
                 raise Violation("set-epoch-log-differs:second-pass", f"announced {ann2} expected {ref['set_epochs']}")
+        # two live iterators over one scheduler object (a dry run over the batch sampler while a pass is suspended; zip(s, s)): the
+        # progress of a pass belongs to that pass
+        if not any(c.get("form") == "growing" for c in spec["configs"]):
+            sampler3, _ = im.build_impl(spec)
+            it_a = iter(sampler3)
+            cut = (spec["main_key"] % max(1, len(ref["stream"]))) if ref["stream"] else 0
+            part = list(itertools.islice(it_a, cut))
+            dry = list(itertools.islice(iter(sampler3), bound + 1))
+            part += list(itertools.islice(it_a, bound + 1))
+            for name, run in (("suspended-pass", part), ("pass-run-in-between", dry)):
+                run_main = [(bool(f), int(g)) for f, g in run if g < N]
+                if run_main != ref_main:
+                    raise Violation(f"interleaved-iterators-over-one-scheduler:{name}",
+                                    f"a pass suspended after {cut} items, a complete pass in between: {name} has {len(run_main)} main items "
+                                    f"(model {len(ref_main)}), first difference at "
+                                    f"{next((k for k in range(min(len(run_main), len(ref_main))) if run_main[k] != ref_main[k]), 'length')}")
     # batch sampler view (fresh instance: samplers with generators advance per iteration)
     sampler2, _ = im.build_impl(spec)
     batches = list(itertools.islice(iter(sampler2.batch_sampler), bound + 1))
